@@ -198,7 +198,7 @@ CONTRACTS = [
     Contract('opt.push_push_binary.intdiv', PROPS, ['qbee.qvm_codegen:QvmCode.optimize'], body_push_push_bin,
              cases=[(t, 'div', 0, sa, sb) for t in (CT.INTEGER, CT.LONG) for (sa, sb) in SMALL2], tier='thorough',
              explorer={'prove_timeout_ms': 120000}),
-    Contract('opt.markers', ['C02', 'C08', 'C11'], ['qbee.qvm_codegen:QvmCode.optimize'], body_markers,
+    Contract('opt.markers', ['C02', 'C06', 'C08', 'C11'], ['qbee.qvm_codegen:QvmCode.optimize'], body_markers,
              cases=[(s,) for s in marker_shapes()],
              trusted=['windows of every rule with a pseudo-instruction at every position (enumerated shapes)']),
 ]
